@@ -55,6 +55,7 @@ pub struct MrpCfg {
     /// After the workload phase, stop all faults, let everything settle and then observe a
     /// quiet window
     pub settle: bool,
+    pub group_fabric: Option<GroupFabric>,
 }
 
 #[derive(Clone, Copy, Debug)]
@@ -182,6 +183,7 @@ pub fn gen_cfg(seed: u64, knobs: &MrpKnobs) -> MrpCfg {
             start_delay_ms: tape::biased(8, 400) * 37,
             script,
             final_ack: tape::biased(2, 500) == 1,
+            group: false,
         };
         // Either append to an existing task list (sequential) or start a new one (concurrent)
         let lists = &mut workloads[node];
@@ -303,6 +305,7 @@ pub fn gen_cfg(seed: u64, knobs: &MrpKnobs) -> MrpCfg {
     MrpCfg {
         cancels,
         settle: knobs.settle,
+        group_fabric: None,
         planted,
         workloads,
         handlers,
@@ -605,6 +608,7 @@ pub fn drive_with(
             busy_handlers: busy.clone(),
             calm: calm.clone(),
             probes_done: probes_done.clone(),
+            group_fabric: cfg.group_fabric.clone(),
         };
         exec.spawn(node, move |shared| stack_root(ctx, shared));
     }
